@@ -403,6 +403,65 @@ def check_core(rep, prog):
                 core(rep, '%s:frees-stream' % fn.name, ok, fn.loc)
 
 
+
+def check_holdpin(rep, prog):
+    """a pipe that keeps input buffers in its hold list pins itself (upipe_use(upipe)) when the list goes from empty to
+    non-empty, and the code that drains or flushes the list drops that one reference: a pin taken while the list already
+    holds buffers is never given back and the pipe (with everything it owns) outlives its last user"""
+    from upv import pathrules as pr
+    rep.rule('R-holdpin', 'every upipe_use() a function applies to its own pipe (first parameter) without releasing it again before returning is '
+             'control-dependent on X_check_input(upipe) being true, i.e. taken only when the hold list was empty; one reference per '
+             'non-empty hold list is what the drain / flush code gives back (19 of 19 such sites in the tree have this form)')
+    n = 0
+    for uname, u in sorted(prog.units.items()):
+        for fn in u.funcs.values():
+            if not fn.blocks or not fn.inmain:
+                continue
+
+            def own(n_, name, fn=fn):
+                if n_.get('k') != 'call' or n_.get('fn') != name or not n_.get('args'):
+                    return False
+                a = strip_all_casts(fn.resolve(n_['args'][0]))
+                return isinstance(a, dict) and a.get('k') == 'ref' and a.get('d') == 'param' and a.get('pi') == 0
+            ev = None
+            for bid, st, x in fn.nodes():
+                if own(x, 'upipe_use'):
+                    ev = pr.Events(fn)
+                    break
+            if ev is None:
+                continue
+            if not any(x.get('k') == 'call' and (x.get('fn') or '').endswith('_check_input') for _, _, x in fn.nodes()):
+                continue          # no hold list in sight: a pin of another kind (scoped pins are balanced in the function)
+            for pos in ev.find(lambda x: own(x, 'upipe_use')):
+                _, ex = ev.reach((pos[0], pos[1]), lambda x: False, lambda x: own(x, 'upipe_release'))
+                if not ex:
+                    continue      # scoped: released again on every path
+
+                def cm(c, pol, fn=fn):
+                    c = strip_all_casts(c)
+                    neg = False
+                    while isinstance(c, dict):
+                        if c.get('k') == 'un' and c.get('op') == '!':
+                            neg = not neg
+                            c = strip_all_casts(fn.resolve(c['e']))
+                            continue
+                        if c.get('k') == 'call' and c.get('fn') == '__builtin_expect':
+                            c = strip_all_casts(fn.resolve(c['args'][0]))
+                            continue
+                        break
+                    return isinstance(c, dict) and c.get('k') == 'call' and (c.get('fn') or '').endswith('_check_input') and pol != neg
+                n += 1
+                ok = pr.control_dependent(fn, ev, pos, cm)
+                rep.add('R-holdpin', '%s:upipe_use(upipe)#%d' % (
+                    fn.name, [p_[2] is pos[2] for p_ in ev.find(lambda x: own(x, 'upipe_use'))].index(True)),
+                    HOLDS if ok else VIOLATED, '%s:%s' % (fn.file, pos[2].get('l')),
+                    **({} if ok else {'what': '%s pins the pipe (upipe_use(upipe), line %s) on a path that does not require X_check_input(upipe) to be true: '
+                                              'with buffers already held a further reference is taken, but draining or flushing the list gives back only one - '
+                                              'the pipe and what it owns are never released' % (fn.name, pos[2].get('l'))}))
+    if n < 12:
+        raise facts.AnalysisBroken('R-holdpin found only %d hold pins' % n)
+
+
 def run(tier='quick', repo=None):
     repo = repo or facts.REPO
     rep = Report(PROP, tier)
@@ -419,6 +478,7 @@ def run(tier='quick', repo=None):
     check_pair(rep, prog)
     check_dangle(rep, prog)
     check_core(rep, prog)
+    check_holdpin(rep, prog)
     from upv import provide
     nprov = provide.run(rep, prog)
     if nprov < 30:
